@@ -25,6 +25,13 @@ Proof. rewrite <- mem_nat_In. destruct (mem_nat x l); split; congruence. Qed.
 Lemma mem_nat_app x l m : mem_nat x (l ++ m) = mem_nat x l || mem_nat x m.
 Proof. unfold mem_nat. apply existsb_app. Qed.
 
+Lemma forallb_ext_in_local {A} (f g : A -> bool) (l : list A) :
+  (forall a, In a l -> f a = g a) -> forallb f l = forallb g l.
+Proof.
+  induction l as [|a l IH]; intros H; simpl; [reflexivity|].
+  rewrite (H a (or_introl eq_refl)), IH; [reflexivity|]. intros x Hx. apply H. now right.
+Qed.
+
 Lemma NoDup_app_intro {A} (l m : list A) :
   NoDup l -> NoDup m -> (forall x, In x l -> ~ In x m) -> NoDup (l ++ m).
 Proof.
@@ -940,4 +947,116 @@ Proof.
     + intros [l [Hl1 Hl2]]. apply Hin in Hl1 as [[a [Ha Hw]]|Hw]; [left; exists a, l; auto|right; exists l; auto].
     + intros [[a [l [Ha [Hw Hx]]]]|[l [Hw Hx]]]; exists l; (split; [apply Hin|assumption]); eauto.
   - intros H1 H2. apply Hnd. intros l Hl1. apply Hin in Hl1 as [[a [Ha Hw]]|Hw]; eauto.
+Qed.
+
+(* ------------------------------------------------------------------------------------------ *)
+(* Part 5: no other stage matters (non-interference)                                            *)
+(* ------------------------------------------------------------------------------------------ *)
+Lemma kahn_relax_step q i v :
+  kahn_relax (q, i) v = (if Z.eqb (i v - 1) 0 then q ++ [v] else q, upd i v (i v - 1)%Z).
+Proof.
+  unfold kahn_relax. simpl. unfold upd at 1. rewrite Nat.eqb_refl. now destruct (Z.eqb (i v - 1) 0).
+Qed.
+
+Lemma kahn_relax_fold_ext order vs : forall q i1 i2,
+  (forall x, In x vs -> In x order) -> (forall x, In x order -> i1 x = i2 x) ->
+  fst (fold_left kahn_relax vs (q, i1)) = fst (fold_left kahn_relax vs (q, i2)) /\
+  forall x, In x order -> snd (fold_left kahn_relax vs (q, i1)) x = snd (fold_left kahn_relax vs (q, i2)) x.
+Proof.
+  induction vs as [|v vs IH]; intros q i1 i2 Hvs Hi; simpl; [auto|].
+  assert (Hv : i1 v = i2 v) by (apply Hi, Hvs; now left).
+  rewrite !kahn_relax_step, Hv. apply IH.
+  - intros x Hx. apply Hvs. now right.
+  - intros x Hx. unfold upd. destruct (Nat.eqb x v); [reflexivity|now apply Hi].
+Qed.
+
+Lemma kahn_ext d1 d2 order :
+  (forall u, succs d1 order u = succs d2 order u) ->
+  forall fuel queue sorted i1 i2, (forall x, In x order -> i1 x = i2 x) ->
+  kahn d1 order fuel queue sorted i1 = kahn d2 order fuel queue sorted i2.
+Proof.
+  intros Hs. induction fuel as [|f IH]; intros queue sorted i1 i2 Hi; simpl; [reflexivity|].
+  destruct queue as [|u q]; [reflexivity|]. rewrite (Hs u).
+  destruct (kahn_relax_fold_ext order (succs d2 order u) q i1 i2) as [H1 H2]; auto.
+  - intros x Hx. unfold succs in Hx. now apply filter_In in Hx.
+  - rewrite H1. apply IH. exact H2.
+Qed.
+
+Lemma merge_order_ext d1 d2 order :
+  (forall a, In a order -> lookup d1 a = lookup d2 a) -> merge_order d1 order = merge_order d2 order.
+Proof.
+  intros Hl.
+  assert (Hr : forall a, In a order -> reqs_of d1 a = reqs_of d2 a).
+  { intros a Ha. unfold reqs_of. now rewrite (Hl a Ha). }
+  assert (Hk : all_known d1 order = all_known d2 order).
+  { unfold all_known. apply forallb_ext_in_local. intros a Ha. now rewrite (Hl a Ha). }
+  assert (Hd : forall a, In a order -> in_degree d1 order a = in_degree d2 order a).
+  { intros a Ha. unfold in_degree. now rewrite (Hr a Ha). }
+  assert (Hs : forall u, succs d1 order u = succs d2 order u).
+  { intros u. unfold succs. apply filter_ext_in. intros a Ha. now rewrite (Hr a Ha). }
+  unfold merge_order. rewrite Hk.
+  replace (filter (fun a => Z.eqb (in_degree d1 order a) 0) order)
+    with (filter (fun a => Z.eqb (in_degree d2 order a) 0) order)
+    by (apply filter_ext_in; intros a Ha; now rewrite (Hd a Ha)).
+  now rewrite (kahn_ext d1 d2 order Hs (S (length order)) _ [] _ _ Hd).
+Qed.
+
+Lemma merge_sorted_ext d1 d2 l :
+  (forall a, In a l -> lookup d1 a = lookup d2 a) -> merge_sorted d1 l = merge_sorted d2 l.
+Proof.
+  unfold merge_sorted. generalize (@nil (nat * value)). induction l as [|a l IH]; intros acc Hl; simpl; [reflexivity|].
+  assert (Ho : outputs_of d1 a = outputs_of d2 a) by (unfold outputs_of; now rewrite (Hl a (or_introl eq_refl))).
+  rewrite Ho. apply IH. intros x Hx. apply Hl. now right.
+Qed.
+
+Lemma ancestor_agree d1 d2 s :
+  lookup d1 s = lookup d2 s -> (forall a, ancestor d1 a s -> lookup d1 a = lookup d2 a) ->
+  forall a, ancestor d1 a s <-> ancestor d2 a s.
+Proof.
+  intros Hs Hl.
+  assert (HP : forall t, t = s \/ ancestor d1 t s -> lookup d1 t = lookup d2 t).
+  { intros t [->|H]; auto. }
+  assert (Hdir : forall r t, t = s \/ ancestor d1 t s -> (direct d1 r t <-> direct d2 r t)).
+  { intros r t Ht. unfold direct. rewrite (HP t Ht). tauto. }
+  assert (Hstep : forall r t, t = s \/ ancestor d1 t s -> direct d1 r t -> ancestor d1 r s).
+  { intros r t [->|Ht] Hd; [now apply anc_direct|]. eapply ancestor_trans; [apply anc_direct|]; eauto. }
+  assert (H12 : forall a t, ancestor d1 a t -> t = s \/ ancestor d1 t s -> ancestor d2 a t).
+  { intros a t H. induction H as [a t Hd|a r t Hd _ IH]; intros Ht.
+    - apply anc_direct. now apply (Hdir a t Ht).
+    - eapply anc_step; [apply (Hdir r t Ht); eauto|]. apply IH. right. eapply Hstep; eauto. }
+  assert (H21 : forall a t, ancestor d2 a t -> t = s \/ ancestor d1 t s -> ancestor d1 a t).
+  { intros a t H. induction H as [a t Hd|a r t Hd _ IH]; intros Ht.
+    - apply anc_direct. now apply (Hdir a t Ht).
+    - apply (Hdir r t Ht) in Hd. eapply anc_step; [eauto|]. apply IH. right. eapply Hstep; eauto. }
+  intros a. split; intros H; [apply H12|apply H21]; auto.
+Qed.
+
+(* the planned context is a function of the stage's own row and its ancestors' rows only: any other
+   stage may be changed at will (outputs, context, reducers, even its requisites) *)
+Lemma plan_noninterference d1 d2 s order ups :
+  lookup d1 s = lookup d2 s -> (forall a, ancestor d1 a s -> lookup d1 a = lookup d2 a) ->
+  iteration_orders d1 s order ups ->
+  (forall a, ancestor d1 a s <-> ancestor d2 a s) /\
+  plan_context d1 s order ups = plan_context d2 s order ups.
+Proof.
+  intros Hs Hl [[anc [Ha Hp]] Hup]. split; [now apply ancestor_agree|].
+  destruct (ancestors_spec d1 s) as [anc1 [Ha1 [_ Hin1]]]. rewrite Ha in Ha1. inversion Ha1. subst anc1.
+  destruct (ancestors_spec d2 s) as [anc2 [Ha2 _]].
+  assert (Hord : forall a, In a order -> lookup d1 a = lookup d2 a).
+  { intros a Hx. apply Hl. apply (Permutation_in _ Hp) in Hx. now apply Hin1 in Hx. }
+  assert (Hups : forall u, In u ups -> lookup d1 u = lookup d2 u).
+  { intros u Hu. apply Hl. apply anc_direct, upstream_refs_direct. apply (Permutation_in _ Hup Hu). }
+  unfold plan_context, merged_ancestor_outputs. rewrite <- Hs, Ha, Ha2, <- (merge_order_ext d1 d2 order Hord).
+  destruct (lookup d1 s) as [st|]; [|reflexivity].
+  destruct (merge_order d1 order) as [sorted|e] eqn:Em; [|reflexivity].
+  assert (Hincl : forall a, In a sorted -> In a order).
+  { unfold merge_order in Em. destruct (all_known d1 order) eqn:Ek; [|discriminate].
+    assert (Hno : NoDup order).
+    { apply (Permutation_NoDup (Permutation_sym Hp)). destruct (ancestors_spec d1 s) as [x [Hx [Hn _]]].
+      rewrite Ha in Hx. inversion Hx. subst x. now inversion Hn. }
+    destruct (merge_order_spec d1 order Hno (proj1 (all_known_spec d1 order) Ek)) as [sorted' [Hm' [_ [Hi _]]]].
+    unfold merge_order in Hm'. rewrite Ek in Hm'. rewrite Em in Hm'. inversion Hm'. subst sorted'. exact Hi. }
+  rewrite (merge_sorted_ext d1 d2 sorted) by (intros a Hx; apply Hord, Hincl, Hx).
+  replace (branch_outputs d1 ups) with (branch_outputs d2 ups); [reflexivity|].
+  unfold branch_outputs. f_equal. apply map_ext_in. intros u Hu. unfold outputs_of. now rewrite (Hups u Hu).
 Qed.
